@@ -2,6 +2,8 @@
    N/Z/positive/nat stay Coq datatypes; no Extract Constant). Run from the output dir. *)
 From Coq Require Import Extraction ExtrOcamlBasic.
 From KV Require Import Bytes WalCodec Memtable Engine.
+From KV Require Import ReadOnly.
+From KV Require Import ApiView.
 From KV Require Import Config.
 Extraction Language OCaml.
 Set Extraction Output Directory ".".
@@ -11,9 +13,12 @@ Separate Extraction
   WalCodec.encode_log WalCodec.encode_entry WalCodec.encode_batch
   WalCodec.wal_append WalCodec.wal_append_batch WalCodec.wal_append_seq
   WalCodec.wal_new_file WalCodec.wal_update_next WalCodec.canon WalCodec.wf_entry
-  Memtable.mt_iter_entries Memtable.seek_ge
+  Memtable.mt_iter_entries Memtable.seek_ge Memtable.mt_put Memtable.mt_del Memtable.mt_get
+  Memtable.mt_set_imm Memtable.mt_empty
   Engine.init Engine.put Engine.del Engine.apply_batch Engine.tx_commit Engine.get Engine.flush
   Engine.reopen Engine.run Engine.buffer_ops
+  ReadOnly.start ReadOnly.step_client ReadOnly.step_repl ReadOnly.node_get ReadOnly.tx_get
+  ReadOnly.node_scan ReadOnly.node_info ReadOnly.rw_open ReadOnly.any_open ApiView.api_view
   Config.default_config Config.zero_config Config.field_lookup Config.kind_of Config.name_of Config.all_fields
   Config.get_int Config.get_str Config.set_int Config.set_str Config.set_ratio Config.validate Config.encode
   Config.save Config.load Config.load_bytes Config.open_db Config.no_dir Config.mkdir Config.truncate_manifest
